@@ -337,9 +337,16 @@ def check_callers(P, R):
              why='parsing any string whatsoever terminates without raising', key_extra=f'{cname}:{where}')
     R.ob('C18.b', q, q.node, True, text='escape analysis of Request.query', nontrivial=True)
     # POST: the urlencoded branch is entered for every body that is neither multipart nor JSON - whatever the framing
-    po = P.func('ombott.request_pkg.body_mixin:BodyMixin.POST')
+    check_view_guards(P, R, 'C18.b', 'ombott.request_pkg.body_mixin:BodyMixin.POST', lambda c: dotted(c.func) == 'parse_qsl', 'the urlencoded branch',
+                      'URL-encoding pairs as an urlencoded body and parsing yields the same pairs')
+
+
+def check_view_guards(P, R, rid, fq, is_sink, what, why):
+    """a parsed view of the body (forms, JSON) is produced whatever the framing: no test of the declared length, the transfer coding or the verb decides
+    whether the body is looked at"""
+    po = P.func(fq)
     g = po.cfg
-    for c in [x for x in walk_shallow(po.node) if isinstance(x, ast.Call) and dotted(x.func) == 'parse_qsl']:
+    for c in [x for x in walk_shallow(po.node) if isinstance(x, ast.Call) and is_sink(x)]:
         cn = g.node_of_stmt(c)[0]
         bad = []
         for n in g.nodes:
@@ -348,10 +355,10 @@ def check_callers(P, R):
                 extra += [x for x in ast.walk(n.ast) if isinstance(x, ast.Constant) and x.value in ('CONTENT_LENGTH', 'REQUEST_METHOD', 'HTTP_TRANSFER_ENCODING')]
                 if extra:
                     bad.append(n)
-        R.ob('C18.b', po, c, not bad, text='urlencoded bodies are parsed whatever the framing / declared length', detail='' if not bad else
-             f'the urlencoded branch is guarded by `{short(bad[0].ast)}`: content_length is -1 without a Content-Length header (chunked transfer), so a chunked '
-             f'urlencoded body is never parsed and the form comes back empty',
-             why='URL-encoding pairs as an urlencoded body and parsing yields the same pairs', key_extra='framing-guard')
+        R.ob(rid, po, c, not bad, text=f'{what}: the body is parsed whatever the framing / declared length', detail='' if not bad else
+             f'{what} is guarded by `{short(bad[0].ast)}`: content_length is -1 without a Content-Length header (chunked transfer), so a chunked '
+             f'body is never parsed and the view comes back empty',
+             why=why, key_extra='framing-guard')
 
 
 def check_total(P, R, f, unq, seen, depth=0):
